@@ -21,6 +21,8 @@ pub enum RpcKind {
     Run,
     Consts,
     Msg,
+    /// the answer to a coordination RPC on its way back to the caller (only with `gate_replies`)
+    Reply,
 }
 
 #[derive(Debug)]
@@ -87,6 +89,8 @@ pub struct Shared {
     pub gate_msgs: bool,
     /// every output() call fails (unreachable destination)
     pub fail_outputs: bool,
+    /// the answers to coordination RPCs are gated as well (they travel independently of requests)
+    pub gate_replies: bool,
     /// multi-thread stress mode: deliveries are not gated by the explorer but delayed by a
     /// pseudo-random real time of up to this many microseconds (0 = explorer-gated)
     pub auto_delay_us: u64,
@@ -175,6 +179,27 @@ impl GatedClient {
         }
     }
 
+    /// holds the answer of a coordination RPC back until the explorer releases it
+    async fn reply_gate(&self, to: usize, kind: RpcKind) {
+        if !self.shared.gate_replies || kind == RpcKind::Msg || self.shared.auto_delay_us > 0 {
+            return;
+        }
+        let (tx, rx) = oneshot::channel();
+        let id = self.shared.next_id.fetch_add(1, Ordering::SeqCst);
+        let t = self.shared.tick();
+        {
+            let mut r = self.shared.rpcs.lock().unwrap();
+            while r.len() <= id {
+                r.push(RpcRec { t_issue: 0, t_release: None, t_done: None, comp: 0, from: 0, to: 0, kind: RpcKind::Msg, fate: "unused", result: None });
+            }
+            r[id] = RpcRec { t_issue: t, t_release: None, t_done: None, comp: self.comp, from: to, to: self.me, kind: RpcKind::Reply, fate: "pending", result: None };
+        }
+        self.shared.pending.lock().unwrap().push(Pending { id, comp: self.comp, from: to, to: self.me, kind: RpcKind::Reply, gate: tx });
+        let _ = rx.await;
+        let t = self.shared.tick();
+        self.shared.rpcs.lock().unwrap()[id].t_done = Some(t);
+    }
+
     fn done(&self, id: usize, res: &Result<(), ClientErr>) {
         let t = self.shared.tick();
         let mut r = self.shared.rpcs.lock().unwrap();
@@ -196,7 +221,11 @@ impl PolicyClient for GatedClient {
     async fn validate(&self, to: usize, req: ValidateRequest) -> Result<(), ClientErr> {
         let (id, h) = self.gate(to, RpcKind::Validate).await;
         let res = match h {
-            Ok(h) => h.validate(req).await.map_err(remote),
+            Ok(h) => {
+                let r = h.validate(req).await.map_err(remote);
+                self.reply_gate(to, RpcKind::Validate).await;
+                r
+            }
             Err(e) => Err(e),
         };
         self.done(id, &res);
@@ -206,7 +235,11 @@ impl PolicyClient for GatedClient {
     async fn run(&self, to: usize, req: RunRequest) -> Result<(), ClientErr> {
         let (id, h) = self.gate(to, RpcKind::Run).await;
         let res = match h {
-            Ok(h) => h.run(req).await.map_err(remote),
+            Ok(h) => {
+                let r = h.run(req).await.map_err(remote);
+                self.reply_gate(to, RpcKind::Run).await;
+                r
+            }
             Err(e) => Err(e),
         };
         self.done(id, &res);
@@ -216,7 +249,11 @@ impl PolicyClient for GatedClient {
     async fn consts(&self, to: usize, req: ConstsRequest) -> Result<(), ClientErr> {
         let (id, h) = self.gate(to, RpcKind::Consts).await;
         let res = match h {
-            Ok(h) => h.consts(req).await.map_err(remote),
+            Ok(h) => {
+                let r = h.consts(req).await.map_err(remote);
+                self.reply_gate(to, RpcKind::Consts).await;
+                r
+            }
             Err(e) => Err(e),
         };
         self.done(id, &res);
@@ -289,6 +326,10 @@ pub enum When {
     Step(usize),
     /// at the first idle point at which the program-compile thread is alive
     DuringCompile,
+    /// immediately behind the k-th action of the explorer (schedule submission, delivery of an RPC or
+    /// of an MPC message), without waiting for the system to become idle: the injected command is
+    /// queued right behind the command that action causes, so it meets the transient state after it
+    After(usize),
 }
 
 #[derive(Clone, Debug)]
@@ -309,6 +350,8 @@ pub struct Scenario {
     pub concurrency: usize,
     pub strategy: Strategy,
     pub gate_msgs: bool,
+    /// gate the answers of coordination RPCs as separate explorer decisions
+    pub gate_replies: bool,
     /// fail the k-th issued RPC of this kind (counted per kind, over the whole scenario)
     pub fail_rpc: Option<(RpcKind, usize)>,
     pub injections: Vec<(When, Inject)>,
@@ -397,6 +440,7 @@ pub fn explore(sc: &Scenario) -> RunRecord {
             rpcs: Mutex::new(vec![]),
             msg_calls: AtomicUsize::new(0),
             gate_msgs: sc.gate_msgs,
+            gate_replies: sc.gate_replies,
             fail_outputs: sc.fail_outputs,
             auto_delay_us: 0,
             auto_seed: 0,
@@ -447,6 +491,7 @@ pub fn explore(sc: &Scenario) -> RunRecord {
                 let due = match injections[k].0 {
                     When::Step(s) => s == step,
                     When::DuringCompile => extra_threads,
+                    When::After(_) => false,
                 };
                 if due {
                     let (_, inj) = injections.remove(k);
@@ -484,7 +529,7 @@ pub fn explore(sc: &Scenario) -> RunRecord {
                 let before = shared.clock.load(Ordering::SeqCst);
                 tokio::time::sleep(std::time::Duration::from_secs(1)).await;
                 if shared.clock.load(Ordering::SeqCst) == before && shared.pending.lock().unwrap().is_empty() && thread_count() <= base_threads {
-                    if injections.iter().any(|(w, _)| matches!(w, When::Step(s) if *s > step)) {
+                    if injections.iter().any(|(w, _)| matches!(w, When::Step(s) | When::After(s) if *s > step)) {
                         // remaining step-based injections fire at quiescence
                         step += 1;
                         let rest: Vec<_> = injections.drain(..).collect();
@@ -524,6 +569,7 @@ pub fn explore(sc: &Scenario) -> RunRecord {
                     Strategy::Random(_) => msgs[rng.random_range(0..msgs.len())],
                 };
                 release(&shared, id, Release::Deliver);
+                fire_after(&shared, &injected, &mut injections, sc, step, extra_threads);
                 continue;
             }
             branching.push(n_choices);
@@ -554,6 +600,7 @@ pub fn explore(sc: &Scenario) -> RunRecord {
                 *cnt += 1;
                 release(&shared, id, if fail { Release::Fail } else { Release::Deliver });
             }
+            fire_after(&shared, &injected, &mut injections, sc, step, extra_threads);
         }
         // end state
         let mut actor_state = vec![];
@@ -642,6 +689,7 @@ pub fn explore_mt(sc: &Scenario, seed: u64) -> RunRecord {
             rpcs: Mutex::new(vec![]),
             msg_calls: AtomicUsize::new(0),
             gate_msgs: false,
+            gate_replies: false,
             fail_outputs: sc.fail_outputs,
             auto_delay_us: 900,
             auto_seed: seed,
@@ -680,7 +728,7 @@ pub fn explore_mt(sc: &Scenario, seed: u64) -> RunRecord {
             timeline.push((rng.random_range(0..1500), Some((c, p)), None));
         }
         for (w, inj) in &sc.injections {
-            let at = match w { When::Step(k) => *k as u64 * 700 + rng.random_range(0..600), When::DuringCompile => rng.random_range(2000..6000) };
+            let at = match w { When::Step(k) | When::After(k) => *k as u64 * 700 + rng.random_range(0..600), When::DuringCompile => rng.random_range(2000..6000) };
             timeline.push((at, None, Some(inj.clone())));
         }
         timeline.sort_by_key(|x| x.0);
@@ -766,6 +814,18 @@ fn release(shared: &Arc<Shared>, id: usize, how: Release) {
             r[id].fate = if matches!(how, Release::Fail) { "failed" } else { "delivered" };
         }
         let _ = p.gate.send(how);
+    }
+}
+
+fn fire_after(shared: &Arc<Shared>, slot: &CallSlot, injections: &mut Vec<(When, Inject)>, sc: &Scenario, step: usize, compile_alive: bool) {
+    let mut k = 0;
+    while k < injections.len() {
+        if matches!(injections[k].0, When::After(s) if s == step) {
+            let (_, inj) = injections.remove(k);
+            do_inject(shared, slot, &inj, sc, step, compile_alive);
+        } else {
+            k += 1;
+        }
     }
 }
 
